@@ -197,6 +197,28 @@ fn main() {
         let s = seen();
         check("own.default.byvalue-required", r == 74 && s == ["provv(3,7)", "reqv(7,3)"], format!("ret={r} seen={s:?}"));
     });
+    // the original consumed by a by-value provided method still verifies (at the end of the default body): unmet expectations are reported
+    run_case("own.default.unmet-verifies", || {
+        let u = Unimock::new((
+            OwnMock::o_req.each_call(matching!(_, _)).answers(&|_, a, b| a * 10 + b),
+            OwnMock::o_m2.next_call(matching!(1, 1)).returns(5u32).n_times(2),
+        ));
+        let r = std::panic::catch_unwind(std::panic::AssertUnwindSafe(move || u.o_prov(3, 7)));
+        let _ = seen();
+        let msg = match &r { Ok(v) => format!("returned {v} silently"), Err(p) => p.downcast_ref::<String>().cloned().unwrap_or_default() };
+        check("own.default.unmet-verifies", r.is_err() && msg.contains("o_m2"), msg.replace('\n', " "));
+    });
+    run_case("own.default.met-silent", || {
+        let u = Unimock::new((
+            OwnMock::o_req.each_call(matching!(_, _)).answers(&|_, a, b| a * 10 + b),
+            OwnMock::o_m2.each_call(matching!(1, 1)).returns(5u32).at_least_times(0),
+        ));
+        let c = u.clone();
+        let _ = c.o_m2(1, 1);
+        let r = u.o_prov(3, 7);
+        let _ = seen();
+        check("own.default.met-silent", r == 74, format!("ret={r}"));
+    });
     run_case("rc.m2", || {
         let u = Rc::new(Unimock::new(RcMock::rc_m2.each_call(matching!(_, _)).answers(&|_, a, b| { see(format!("ans({a},{b})")); a * 100 + b })));
         let r = u.clone().rc_m2(3, 7);
